@@ -5,6 +5,7 @@ package couchbase
 import (
 	"github.com/couchbase/gocbcore/v10"
 
+	"github.com/Trendyol/go-dcp/models"
 	"github.com/Trendyol/go-dcp/wrapper"
 )
 
@@ -37,4 +38,46 @@ func VerifCheckpointID(vbID uint16, groupName string) (id string, ok bool) {
 		}
 	}()
 	return string(getCheckpointID(vbID, groupName)), true
+}
+
+// VerifRM is the per-vBucket replica table of rollback mitigation with the part of the OBSERVE_SEQNO reply handler that
+// does not need a connected agent: IsOutdated, SetSeqNo/SetVbUUID, getMinSeqNo and the dispatch of the new minimum.
+type VerifRM struct{ r *rollbackMitigation }
+
+// VerifNewRM builds the table the way reset() does: slots copies (active + replicas) for every vBucket.
+func VerifNewRM(vbIDs []uint16, slots int, dispatch func(vbID uint16, seqNo gocbcore.SeqNo)) *VerifRM {
+	r := &rollbackMitigation{
+		vbIds:           vbIDs,
+		persistedSeqNos: wrapper.CreateConcurrentSwissMap[uint16, []*vbUUIDAndSeqNo](1024),
+	}
+	r.persistSeqNoDispatcher = func(p *models.PersistSeqNo) { dispatch(p.VbID, p.SeqNo) }
+	for _, vbID := range vbIDs {
+		arr := make([]*vbUUIDAndSeqNo, slots)
+		for j := range arr {
+			arr[j] = &vbUUIDAndSeqNo{}
+		}
+		r.persistedSeqNos.Store(vbID, arr)
+	}
+	return &VerifRM{r: r}
+}
+
+// Report is the success path of the callback in observe() (rollback_mitigation.go l.333-349).
+func (v *VerifRM) Report(vbID uint16, replica int, vbUUID gocbcore.VbUUID, persistSeqNo gocbcore.SeqNo) {
+	result := &gocbcore.ObserveVbResult{VbUUID: vbUUID, PersistSeqNo: persistSeqNo}
+	replicas, _ := v.r.persistedSeqNos.Load(vbID)
+	if len(replicas) > replica {
+		if replicas[replica].IsOutdated(result) {
+			replicas[replica].SetSeqNo(result.PersistSeqNo)
+			replicas[replica].SetVbUUID(result.VbUUID)
+			v.r.persistSeqNoDispatcher(&models.PersistSeqNo{VbID: vbID, SeqNo: v.r.getMinSeqNo(vbID)})
+		}
+	}
+}
+
+// Absent marks one copy as not listed in the cluster map (what markAbsentInstances does for it).
+func (v *VerifRM) Absent(vbID uint16, replica int) {
+	replicas, _ := v.r.persistedSeqNos.Load(vbID)
+	if len(replicas) > replica {
+		replicas[replica].SetAbsent()
+	}
 }
